@@ -49,18 +49,26 @@ type syncWorld struct {
 	hosts   map[string]string           // hkind -> host text (no brackets)
 	ports   map[string]int
 
-	mu  sync.Mutex
-	log []reqLog
-	pub *ipnisync.Publisher
+	mu    sync.Mutex
+	log   []reqLog
+	pub   *ipnisync.Publisher
+	route func(*http.Request) *ipnisync.Publisher // when set, picks the publisher by request
 }
 
 func (w *syncWorld) ServeHTTP(rw http.ResponseWriter, r *http.Request) {
 	w.mu.Lock()
 	w.log = append(w.log, reqLog{r.Host, r.URL.Path, r.URL.RawPath, r.RequestURI})
 	pub := w.pub
+	if w.route != nil {
+		pub = w.route(r)
+	}
 	w.mu.Unlock()
 	if strings.Contains(r.URL.Path, "/.well-known/") {
 		http.NotFound(rw, r) // not a libp2phttp server: the client falls back to plain HTTP
+		return
+	}
+	if pub == nil {
+		http.NotFound(rw, r)
 		return
 	}
 	pub.ServeHTTP(rw, r)
@@ -364,4 +372,6 @@ func runSyncCases(c *vlib.Ctx) {
 	for _, raw := range []string{"/a%2Fb", "/a%2fb/c", "/%41", "/a%2Bb", "/a!b", "/a%3Bb"} {
 		doSyncRaw(c, w, "ip4", raw)
 	}
+	runAddrChange(c, w)
+	runSameAddrs(c, w)
 }
